@@ -853,6 +853,13 @@ def visitor_corpus(tier, seed, ci, nc, star_only=False, limit=None):
 
 
 ADVERSARIAL_SOURCES = [
+    # nesting through functions / lambdas that bind no name of their own (their namespace is empty)
+    "def f(*args, **kwargs):\n    def l1():\n        def l2():\n            return g(*args, **kwargs)\n        return l2()\n    return l1()\n",
+    "def f(*args, **kwargs):\n    return (lambda: (lambda: g(*args, **kwargs))())()\n",
+    "def f(*args, **kwargs):\n    def l1():\n        return (lambda: g(*args, **kwargs))()\n    return l1()\n",
+    "def f(*args, **kwargs):\n    def l1(q):\n        def l2():\n            return g(*args, **kwargs)\n        return l2()\n    return l1(1)\n",
+    "def f(*args, **kwargs):\n    def l1():\n        def l2():\n            def l3():\n                return g(1, *args, k=2, **kwargs)\n            return l3()\n        return l2()\n    return l1()\n",
+    "def f(a, *args, **kwargs):\n    def l1():\n        def l2():\n            nonlocal kwargs\n            kwargs = {}\n        l2()\n    l1()\n    return g(*args, **kwargs)\n",
     "def f(*args, **kwargs):\n    return g(*args, **kwargs)\n",
     "def f(*args, **kwargs):\n    kwargs.pop('x')\n    return g(*args, **kwargs)\n",
     "def f(*args, **kwargs):\n    kwargs = {}\n    return g(*args, **kwargs)\n",
